@@ -281,7 +281,22 @@ fn check_unused_defines(
             0,
             &hierarchy);
 
-        if let None = maybe_decl
+        let names_a_constant = {
+            match maybe_decl
+            {
+                Some(decl_ref) =>
+                {
+                    match decls.symbols.get(decl_ref).kind
+                    {
+                        util::SymbolKind::Constant => true,
+                        _ => false,
+                    }
+                }
+                None => false,
+            }
+        };
+
+        if !names_a_constant
         {
             report.error(
                 format!(
